@@ -97,7 +97,7 @@ def unmarshalScalar (t : CqlTy) (isNil : Bool) (d : Bytes) (ty : GoTy) : URes :=
       | .str named => .ok (.str named d)
       | .bytes false => .ok (if d = [] then .bytes false true [] else .bytes false false d)
       | .bytes true => .ok (if isNil then .bytes true true [] else .bytes true false d)
-      | .ip => .unmodelled
+      | .ip => .ok (.ip d)                      -- net.IP is a named []byte: reflect path
       | _ => .err)
   | .boolean => (match ty with
       | .bool named => .ok (.bool named (decBool d))
@@ -329,6 +329,12 @@ def unmarshalBase (p : Nat) : CqlTy → GoTy → Option Bytes → URes
        (match unmarshalUdtStruct p names ts fnames gs (dataBytes data) (zeroOfs gs) with
         | .ok vs _ => .ok (.udtstruct fnames vs)
         | .err => .err | .crash => .crash | .unmodelled => .unmodelled)
+     | .struct gs =>
+       -- no cql tags and no field named like a UDT field: every field is read and skipped
+       if dataBytes data = [] then .ok (.struct (zeroOfs gs)) else
+       (match unmarshalUdtStruct p names ts [] gs (dataBytes data) (zeroOfs gs) with
+        | .ok vs _ => .ok (.struct vs)
+        | .err => .err | .crash => .crash | .unmodelled => .unmodelled)
      | .int _ _ | .str _ | .bool _ | .f32 _ | .f64 _ | .dur | .slice _ | .array _ _ | .bytes _ | .ip | .map _ _ => .err
      | _ => .unmodelled)
   | t, ty, data => unmarshalScalar t (data.isNone) (dataBytes data) ty
@@ -361,6 +367,7 @@ def unmarshalTupleSet (p : Nat) : List CqlTy → List GoTy → Bytes → LRes (L
                  (match g, v with
                   | .arr16, .uuid b => .ok (.arr16 b)
                   | .bytes true, .bytes false isNil b => .ok (.bytes true isNil b)
+                  | .ip, .bytes false _ b => .ok (.ip b)
                   | _, _ => .crash))
           (match slot with
            | .ok sv => (match unmarshalTupleSet p ts gs r with
